@@ -186,6 +186,45 @@ def translate(repo):
         return res
     item('MESSAGES', messages)
 
+
+    def error_api():
+        """the callers' view of the category: is_io / is_syntax / is_data / is_eof are classify() == the category of their name; io_error_kind is the
+        kind of the wrapped io::Error; io::Error::from(Error) = the wrapped error for Io, InvalidData for Syntax / Data, UnexpectedEof for Eof;
+        source() = the wrapped error's source for Io, None otherwise; fix_position repositions only an unpositioned error (line == 0)"""
+        sq = squeeze(re.sub(r'^\s*//.*$', '', err, flags=re.M))
+        for name, cat in (('is_io', 'Io'), ('is_syntax', 'Syntax'), ('is_data', 'Data'), ('is_eof', 'Eof')):
+            if sq.count('pub fn %s(&self) -> bool { self.classify() == Category::%s }' % (name, cat)) != 1:
+                raise Broken('%s is no longer `self.classify() == Category::%s`' % (name, cat))
+        need = ['pub fn io_error_kind(&self) -> Option<ErrorKind> { if let ErrorCode::Io(io_error) = &self.err.code { Some(io_error.kind()) } else { None } }',
+                'fn from(j: Error) -> Self { if let ErrorCode::Io(err) = j.err.code { err } else { match j.classify() { Category::Io => unreachable!(), '
+                'Category::Syntax | Category::Data => io::Error::new(ErrorKind::InvalidData, j), Category::Eof => io::Error::new(ErrorKind::UnexpectedEof, j), } } }',
+                'match &self.err.code { ErrorCode::Io(err) => err.source(), _ => None, }',
+                'pub(crate) fn fix_position<F>(self, f: F) -> Self where F: FnOnce(ErrorCode) -> Error, { if self.err.line == 0 { f(self.err.code) } else { self } }']
+        for t in need:
+            if sq.count(t) != 1:
+                raise Broken('error.rs no longer contains exactly once: ' + t[:90] + ' ...')
+        return 1
+    item('ERROR_API_SHAPE', error_api)
+
+
+    def idents():
+        """every `parse_ident(b"...")` site of de.rs follows the arm of the literal's first byte and names the rest of that literal:
+        n -> ull, t -> rue, f -> alse (the bool map-key sites also expect the closing quote).  The model hard-codes these three literals."""
+        sites = []
+        for m in re.finditer(r'parse_ident\(b"((?:[^"\\]|\\.)*)"\)', de):
+            before = de[:m.start()]
+            arm = re.findall(r"b'(\w)'\)? => \{", before)
+            if not arm:
+                raise Broken('parse_ident site without a byte arm')
+            sites.append((arm[-1], m.group(1)))
+        want = {('n', 'ull'), ('t', 'rue'), ('f', 'alse'), ('t', 'rue\\"'), ('f', 'alse\\"')}
+        if set(sites) != want:
+            raise Broken('parse_ident sites %r' % sorted(set(sites) ^ want))
+        if len(sites) != 15:
+            raise Broken('%d parse_ident sites, the model mirrors 15' % len(sites))
+        return 1
+    item('IDENT_SHAPE', idents)
+
     # ---- read.rs -------------------------------------------------------
     def is_escape():
         m = re.search(r'fn is_escape\(ch: u8, including_control_characters: bool\) -> bool \{\s*(.*?)\s*\}', read, re.S)
